@@ -36,7 +36,8 @@ RULE = ("signatures: 0..4 parameters (plain names, `caller` at every position, `
 
 NAMES = {0: "caller", 1: "kwargs", 2: "varargs", 3: "a", 4: "b", 5: "c", 6: "d", 7: "class", 8: "for", 9: "self",
          10: "o1", 11: "o2", 12: "o3", 20: "z", 21: "y", 22: "if", 23: "obj", 24: "context", 25: "environment", 26: "args",
-         27: "name", 28: "func"}
+         27: "name", 28: "func", 29: "\ufb01", 31: "_Context__obj", 32: "_Context__self", 33: "_SandboxedEnvironment__obj",
+         34: "_SandboxedEnvironment__context"}
 IDS = {v: k for k, v in NAMES.items()}
 O1_DEF, O1_CALL, O2_CTX = 90, 91, 92
 
@@ -90,6 +91,21 @@ def printed(d, p):
     return True
 
 
+# the single mention of a special name X (caller / kwargs / varargs) in the macro body: every expression position,
+# also inside nested scopes whose own signature does not rebind it
+USE_FORMS = {
+    0: "{{ X|show }}",
+    1: "{% call fw(X) %}{% endcall %}",                                            # argument of a call block's call
+    2: "{% macro inn#(x=X) %}{{ x|show }}{% endmacro %}{{ inn#() }}",              # default of a nested macro
+    3: "{% call(e=X) fw2() %}{{ e|show }}{% endcall %}",                           # default of a call block parameter
+    4: "{% for q in [X] %}{{ q|show }}{% endfor %}",                               # iterable of a nested loop
+    5: "{% with w = X %}{{ w|show }}{% endwith %}",                                # value of a with
+    6: "{% set s#_ = X %}{{ s#_|show }}",                                          # value of an assignment
+    7: "{% if X is not string %}{{ X|show }}{% endif %}",                          # operand of a test, then printed
+    8: "{% set X = X %}{{ X|show }}",                                              # re-bound to itself: the value is read first
+}
+
+
 def def_source(d, as_call_block=None):
     n, nd = len(d["params"]), len(d["defaults"])
     ps = []
@@ -115,11 +131,12 @@ def def_source(d, as_call_block=None):
         body += "|"
         if d["uses"][idx] and idx not in d["params"]:
             # the only mention of the special name: printed, or an argument of a call block's call expression
-            body += ("{%% call fw(%s) %%}{%% endcall %%}" % nm) if d.get("fwd") else ("{{ %s|show }}" % nm)
+            body += USE_FORMS[1 if d.get("fwd") else d.get("useform", 0)].replace("X", nm).replace("#", str(idx))
         else:
             body += "-"
     body += mut
-    fw = "{% macro fw(v) %}{{ v|show }}{{ caller() }}{% endmacro %}" if d.get("fwd") else ""
+    fw = ("{% macro fw(v) %}{{ v|show }}{{ caller() }}{% endmacro %}" if d.get("fwd") else "") + \
+        ("{% macro fw2() %}{{ caller() }}{% endmacro %}" if d.get("useform") == 3 and not d.get("fwd") else "")
     if as_call_block is not None:
         # "a call block works exactly like a macro without a name": the same signature and body as a call block,
         # invoked through caller(<the call's arguments>) from inside a wrapper macro
@@ -362,6 +379,7 @@ def signatures(ctx, max_n):
             variants.append([9] + base[1:])           # a parameter named `self` (also given by keyword)
             variants.append([23] + base[1:])          # parameters named like arguments of the engine's own call helpers
             variants.append(base[:-1] + [24])
+            variants.append(base[:-1] + [29])         # a parameter name python normalizes (NFKC): the ligature fi
         if n >= 2:
             variants.append([8] + base[1:-1] + [7])
         for params in variants:
@@ -369,7 +387,8 @@ def signatures(ctx, max_n):
                 for uses in itertools.product((0, 1), repeat=3):
                     defaults = [ctx.rng.choice(default_options(params, n - nd + j)) for j in range(nd)]
                     out.append({"params": params, "defaults": defaults, "uses": list(uses),
-                                "o2": ctx.rng.random() < 0.5, "prelude": ctx.rng.random() < 0.25, "fwd": ctx.rng.random() < 0.25})
+                                "o2": ctx.rng.random() < 0.5, "prelude": ctx.rng.random() < 0.25, "fwd": ctx.rng.random() < 0.15,
+                                "useform": ctx.rng.choice([0, 0, 0, 2, 3, 4, 5, 6, 7, 8])})
     return out
 
 
@@ -390,7 +409,7 @@ def exhaustive_calls(d, max_pos, max_kw, cyc):
 
 def random_call(ctx, d, path):
     cand = sorted(set(d["params"]) | {20, 21, 22, 0} | ({9} if ctx.rng.random() < 0.15 else set())
-                  | ({ctx.rng.choice([23, 24, 25, 26, 27, 28])} if ctx.rng.random() < 0.4 else set()))
+                  | ({ctx.rng.choice([23, 24, 25, 26, 27, 28, 29, 31, 32, 33, 34])} if ctx.rng.random() < 0.45 else set()))
     npos = ctx.rng.randint(0, 5)
     k = ctx.rng.randint(0, min(4, len(cand)))
     names = ctx.rng.sample(cand, k)
@@ -415,7 +434,7 @@ def random_call(ctx, d, path):
 # ------------------------------------------------------------------ judging one case
 def judge(ctx, real, case, mline, finals_queue):
     d, c = case["def"], case["call"]
-    key = (tuple(d["params"]), tuple(d["defaults"]), tuple(d["uses"]), d["o2"], bool(d.get("prelude")), bool(d.get("fwd")))
+    key = (tuple(d["params"]), tuple(d["defaults"]), tuple(d["uses"]), d["o2"], bool(d.get("prelude")), bool(d.get("fwd")), d.get("useform", 0))
     fields = dict(f.split("=", 1) for f in mline.split(" "))
     mC = fields["C"]
     rd = real.compiled_def(d, key)
@@ -439,7 +458,9 @@ def judge(ctx, real, case, mline, finals_queue):
     py, flags = mC.split("/")
     model_sig = ",".join(NAMES[int(x[1:])] if x[0] == "p" and x[1:].isdigit() else x for x in py.split(",") if x) + "/" + flags
     ok = True
-    if model_sig != rd[2]:
+    import unicodedata
+    # CPython normalizes identifiers (NFKC): the generated function's parameter for `\ufb01` is spelled `fi`
+    if unicodedata.normalize("NFKC", model_sig) != unicodedata.normalize("NFKC", rd[2]):
         # keep going: the call below tells whether the property fails on this input
         ctx.model_mismatch("K-gen macro_body / macro_def (python parameters, Macro flags)", case, model_sig, rd[2], None)
         ok = False
